@@ -18,6 +18,7 @@ from typedpy import (
     Set, ImmutableSet, Tuple, Map, AnyOf, OneOf, AllOf, NotField, Anything, StructureReference,
     PositiveInt, NegativeInt, NonPositiveInt, NonNegativeInt, PositiveFloat, NegativeFloat,
     NonPositiveFloat, NonNegativeFloat, Positive, Negative, NonPositive, NonNegative,
+    ImmutableArray, ImmutableDeque, ImmutableMap, ImmutableInteger, ImmutableString, ImmutableFloat, ImmutableNumber,
 )
 from typedpy.structures import ClassReference, NoneField
 from typedpy.structures.structures import _internal_props
@@ -179,9 +180,17 @@ def _num_of_q(q):
     return fr.numerator if fr.denominator == 1 else float(fr)
 
 
+IMMUTABLE_VARIANT = {}
+
+
 def build_field(d, ctx, **extra):
     """model declaration (JSON) -> real typedpy Field instance"""
     k = d["k"]
+    imm = extra.pop("_imm", False)
+    if imm:
+        f = _build_immutable(d, ctx, **extra)
+        if f is not None:
+            return f
     if k in ("number", "integer", "float"):
         cls = SIGN_CLASSES[(k, d.get("sign", "any"))]
         kw = {}
@@ -263,6 +272,43 @@ def build_field(d, ctx, **extra):
     raise ValueError(f"build_field: {k}")
 
 
+def _build_immutable(d, ctx, **extra):
+    """Immutable* field variants (field-level immutability inside a mutable structure)"""
+    k = d["k"]
+    if k in ("seqAny", "seqOf", "seqPos"):
+        cls = ImmutableDeque if d.get("seq") == "deque" else ImmutableArray
+        kw = _size_kw(d)
+        if k == "seqOf":
+            kw["items"] = build_field(d["item"], ctx)
+        elif k == "seqPos":
+            kw["items"] = [build_field(x, ctx) for x in d["items"]]
+            if d.get("addl") is False:
+                kw["additionalItems"] = False
+        return cls(**kw, **extra)
+    if k in ("mapAny", "mapOf"):
+        kw = _size_kw(d)
+        kw.pop("uniqueItems", None)
+        if k == "mapOf":
+            kw["items"] = [build_field(d["key"], ctx), build_field(d["val"], ctx)]
+        return ImmutableMap(**kw, **extra)
+    if k in ("integer", "float", "number") and d.get("sign", "any") == "any":
+        cls = {"integer": ImmutableInteger, "float": ImmutableFloat, "number": ImmutableNumber}[k]
+        kw = {}
+        if d.get("mult") is not None:
+            kw["multiplesOf"] = d["mult"]
+        if d.get("min") is not None:
+            kw["minimum"] = _bound(d["min"], d.get("minFloat"))
+        if d.get("max") is not None:
+            kw["maximum"] = _bound(d["max"], d.get("maxFloat"))
+        if d.get("excl"):
+            kw["exclusiveMaximum"] = True
+        return cls(**kw, **extra)
+    if k == "string":
+        kw = {n: d[n] for n in ("minLength", "maxLength", "pattern") if d.get(n) is not None}
+        return ImmutableString(**kw, **extra)
+    return None
+
+
 def _bound(q, as_float):
     fr = Fraction(q[0], q[1])
     if as_float or fr.denominator != 1:
@@ -293,7 +339,7 @@ def build_class(d, ctx, base=None):
     assert d["k"] == "struct" and not d.get("inline")
     body = {}
     for n, fd in d["fields"]:
-        body[n] = build_field(fd, ctx, **_default_kw(d, n, ctx))
+        body[n] = build_field(fd, ctx, _imm=n in d.get("immFields", []), **_default_kw(d, n, ctx))
     body["_required"] = list(d["required"])
     body["_additional_properties"] = bool(d.get("addl", True))
     if d.get("ignoreNone"):
@@ -308,6 +354,8 @@ def dump_field(f, ctx=None):
     """real Field instance -> model declaration (JSON)"""
     ctx = ctx or Ctx()
     t = type(f)
+    t = {ImmutableArray: Array, ImmutableDeque: Deque, ImmutableMap: Map, ImmutableInteger: Integer,
+         ImmutableString: String, ImmutableFloat: Float, ImmutableNumber: Number}.get(t, t)
     if t in CLASS_TO_SIGN:
         kind, sign = CLASS_TO_SIGN[t]
         d = {"k": kind}
@@ -432,6 +480,9 @@ def dump_class(cls, ctx=None):
         d["ignoreNone"] = True
     if getattr(cls, "_immutable", False):
         d["immutable"] = True
+    imm_fields = sorted(n for n, f in fields.items() if isinstance(f, typedpy.structures.ImmutableField))
+    if imm_fields:
+        d["immFields"] = imm_fields
     defaults = [[n, dump_value(f._default() if callable(f._default) else f._default, ctx)]
                 for n, f in fields.items() if getattr(f, "_default", None) is not None]
     if defaults:
@@ -446,6 +497,12 @@ def normalize_decl(d):
     if not isinstance(d, dict):
         return d
     out = {}
+    if d.get("k") == "struct":
+        # ImmutableSet fields are ImmutableField instances: always field-level immutable
+        imm = set(d.get("immFields") or []) | {n for n, fd in d.get("fields", [])
+                                               if fd.get("k") in ("setAny", "setOf") and fd.get("imm")}
+        d = dict(d)
+        d["immFields"] = sorted(imm)
     for k, v in d.items():
         if v is None or v is False and k in ("excl", "uniq", "imm", "inline", "ignoreNone", "immutable",
                                                 "minFloat", "maxFloat"):
@@ -458,8 +515,9 @@ def normalize_decl(d):
             continue
         if k == "defaults" and not v:
             continue
-        if k == "required":
-            out[k] = sorted(v)
+        if k in ("required", "immFields"):
+            if v or k == "required":
+                out[k] = sorted(v)
             continue
         if k == "accepts":
             continue
